@@ -437,6 +437,9 @@ def check_catalogue(col, lo=0, step=1):
             judge("isstdlibtype", res in STDLIB, call("isstdlibtype", obj))
             judge("isbuiltinsubtype", issubclass(res, tuple(BUILTINS)), call("isbuiltinsubtype", obj))
             judge("isstdlibsubtype", issubclass(res, tuple(STDLIB)), call("isstdlibsubtype", obj))
+        if e["kind"] in ("abc", "typing") and e["abstract_of"] is not None and e["resolved"] in (list, set, frozenset, dict, tuple):
+            # an ABC / typing alias that stands for a builtin collection (bare or parameterised, either spelling) is no structured type
+            judge("isstructuredtype", False, call("isstructuredtype", obj))
         if e["kind"] == "generic":
             judge("isfixedtupletype", e["flavour"] == "fixedtuple", call("isfixedtupletype", obj))
             judge("isstructuredtype", e["flavour"] == "fixedtuple", call("isstructuredtype", obj))
